@@ -1029,11 +1029,16 @@ mod wrapper {
     use bytes::Bytes;
     use std::sync::Mutex;
 
+    /// What the upstream hands out, one message per call: the answer under test first, then - for a caller that keeps
+    /// asking after a refusal, as one waiting for the genuine answer behind a spoofed one does - a forged one.
     #[derive(Debug)]
-    struct Ready(Option<Result<Message<Bytes>, ClientError>>);
+    struct Ready(Option<Result<Message<Bytes>, ClientError>>, Option<Message<Bytes>>);
     impl GetResponse for Ready {
         fn get_response(&mut self) -> std::pin::Pin<Box<dyn std::future::Future<Output = Result<Message<Bytes>, ClientError>> + Send + Sync + '_>> {
-            let r = self.0.take().unwrap_or(Err(ClientError::ConnectionClosed));
+            let r = match self.0.take() {
+                Some(r) => r,
+                None => self.1.take().map(Ok).unwrap_or(Err(ClientError::ConnectionClosed)),
+            };
             Box::pin(std::future::ready(r))
         }
     }
@@ -1058,7 +1063,7 @@ mod wrapper {
                 Ok(m) => m.as_slice().to_vec(),
                 Err(e) => {
                     *self.out.lock().unwrap() = Some(Outcome { request_verified: Err(format!("to_message: {}", e)), unsigned_response: vec![] });
-                    return Box::new(Ready(None));
+                    return Box::new(Ready(None, None));
                 }
             };
             let now = std::time::SystemTime::now().duration_since(std::time::UNIX_EPOCH).unwrap().as_secs();
@@ -1066,12 +1071,12 @@ mod wrapper {
                 Ok(x) => x,
                 Err(e) => {
                     *self.out.lock().unwrap() = Some(Outcome { request_verified: Err(format!("{:?}", e)), unsigned_response: vec![] });
-                    return Box::new(Ready(None));
+                    return Box::new(Ready(None, None));
                 }
             };
             // the answer: the request's ID and question, one address record
-            let Ok(pm) = w::parse_message(&orig) else { return Box::new(Ready(None)) };
-            let Some(q) = pm.questions.first() else { return Box::new(Ready(None)) };
+            let Ok(pm) = w::parse_message(&orig) else { return Box::new(Ready(None, None)) };
+            let Some(q) = pm.questions.first() else { return Box::new(Ready(None, None)) };
             let mut resp = w::header(pm.id, 0x8180, [1, 1, 0, 0]);
             resp.extend_from_slice(&q.name);
             resp.extend_from_slice(&q.qtype.to_be_bytes());
@@ -1100,10 +1105,21 @@ mod wrapper {
                 "unsigned" => wire = resp.clone(),
                 _ => {}
             }
+            let mut resp_forged = resp.clone();
+            let l = resp_forged.len();
+            resp_forged[l - 1] ^= 0x55;
             *self.out.lock().unwrap() = Some(Outcome { request_verified: Ok(()), unsigned_response: resp });
+            // the message behind it: the same answer with another address, unsigned or signed with another secret
+            let mut forged = resp_forged;
+            if rng.bool() {
+                let mut k2 = self.key.clone();
+                k2.secret.push(9);
+                forged = rt::sign(&k2, &Kind::Response { request_mac: &mac }, &forged, now, 300, 0, &[]).0;
+            }
+            let second = Message::from_octets(Bytes::from(forged)).ok();
             match Message::from_octets(Bytes::from(wire)) {
-                Ok(m) => Box::new(Ready(Some(Ok(m)))),
-                Err(_) => Box::new(Ready(None)),
+                Ok(m) => Box::new(Ready(Some(Ok(m)), second)),
+                Err(_) => Box::new(Ready(None, None)),
             }
         }
     }
@@ -1136,7 +1152,10 @@ mod wrapper {
                 }
                 let conn = ctsig::Connection::new(lib_key, server);
                 let mut gr = SendRequest::send_request(&conn, rm);
-                Ok::<_, String>(gr.get_response().await.map(|m| m.as_slice().to_vec()).map_err(|e| format!("{}", e)))
+                let first = gr.get_response().await.map(|m| m.as_slice().to_vec()).map_err(|e| format!("{}", e));
+                // a caller that was refused an answer and asks again gets whatever the upstream has next: a forged message
+                let again = if first.is_err() { Some(gr.get_response().await.map(|m| m.as_slice().to_vec()).map_err(|e| format!("{}", e))) } else { None };
+                Ok::<_, String>((first, again))
             })
         });
         let got = match res {
@@ -1150,6 +1169,14 @@ mod wrapper {
             }
             Ok(Ok(g)) => g,
         };
+        let (got, again) = got;
+        if let Some(Ok(m)) = &again {
+            c.violation("wrapper:forged-response-accepted-after-a-refusal", &format!("after a response with [{}] was refused the caller asked again and was handed a forged message as authentic: {}", fault, hex(&m[..m.len().min(120)])), c.replay_of(fam, idx, ex));
+            return;
+        }
+        if again.is_some() {
+            c.count("wrapper_refusals_followed_by_another_refusal", 1);
+        }
         let o = out.lock().unwrap().take();
         let Some(o) = o else {
             c.violation("wrapper:request-never-reached-upstream", "the wrapper completed without handing a request to its upstream", c.replay_of(fam, idx, ex));
@@ -1723,7 +1750,7 @@ pub fn run(c: &mut Ctx) {
         sequence(c, fam, idx, &mut log);
     }
     if !c.replaying() {
-        for k in ["macs_compared", "honest_requests_verified", "honest_responses_verified", "requests_outside_window_rejected", "responses_outside_window_rejected", "badtime_responses_checked", "request_tampers", "response_tampers", "lib_server_sequences", "ref_server_sequences", "sequences_of_100_or_more", "unsigned_runs_cut_off", "poisoned_sequences_rejected", "tampered_but_authentic_by_rfc", "wrapper_honest_exchanges", "wrapper_bad_responses_refused", "wrapper_requests_verified_by_reference", "middleware_authentic_requests", "middleware_responses_verified_by_reference", "middleware_subsequent_messages_verified", "middleware_sequences", "middleware_unsigned_passed_through", "middleware_bad_requests_answered_with_error", "middleware_badtime_responses_verified", "middleware_truncated_responses", "middleware_brim_full_responses_signed"] {
+        for k in ["macs_compared", "honest_requests_verified", "honest_responses_verified", "requests_outside_window_rejected", "responses_outside_window_rejected", "badtime_responses_checked", "request_tampers", "response_tampers", "lib_server_sequences", "ref_server_sequences", "sequences_of_100_or_more", "unsigned_runs_cut_off", "poisoned_sequences_rejected", "tampered_but_authentic_by_rfc", "wrapper_honest_exchanges", "wrapper_bad_responses_refused", "wrapper_requests_verified_by_reference", "wrapper_refusals_followed_by_another_refusal", "middleware_authentic_requests", "middleware_responses_verified_by_reference", "middleware_subsequent_messages_verified", "middleware_sequences", "middleware_unsigned_passed_through", "middleware_bad_requests_answered_with_error", "middleware_badtime_responses_verified", "middleware_truncated_responses", "middleware_brim_full_responses_signed"] {
             c.floor(k, 3);
         }
     }
